@@ -92,7 +92,18 @@ pub fn update_baseline_from_results(
             // Start with existing baseline for add-only mode
             existing_baseline.cloned().unwrap_or_default()
         }
-        _ => Baseline::new(),
+        BaselineUpdateMode::Content | BaselineUpdateMode::Structure => {
+            // Only entries of the updated kind are replaced: keep the other kind as it was
+            let keep_structure = matches!(mode, BaselineUpdateMode::Content);
+            let mut kept = Baseline::new();
+            for (path, entry) in existing_baseline.iter().flat_map(|b| b.files()) {
+                if entry.is_structure() == keep_structure {
+                    kept.set(path, entry.clone());
+                }
+            }
+            kept
+        }
+        BaselineUpdateMode::All => Baseline::new(),
     };
 
     for result in results {
